@@ -123,6 +123,22 @@ func c16Exec(frame []byte, kind env.Kind) *core.Finding {
 	if b[0] != fb {
 		return mk("first-byte-lost", fmt.Sprintf("written again the first byte is %02x", b[0]))
 	}
+	// and a second and third time (a bridge writes one decoded packet to
+	// several connections)
+	for i := 2; i <= 3; i++ {
+		b2, _, werr, res := writePacket(p, 0)
+		if res.Panic != "" || werr != nil || len(b2) == 0 {
+			return mk("rewrite-fails", fmt.Sprintf("write #%d: %v %s", i, werr, res.Panic))
+		}
+		if b2[0] != fb {
+			return mk("first-byte-lost-on-later-write", fmt.Sprintf("write #%d of the decoded packet starts with %02x", i, b2[0]))
+		}
+	}
+	if q, ok := p.(*mq.Publish); ok {
+		if q.Duplicate() != (fb&8 != 0) || q.QoS() != (fb>>1)&3 || q.Retain() != (fb&1 != 0) {
+			return mk("publish-flags-after-write", fmt.Sprintf("after writing: Duplicate=%v QoS=%d Retain=%v", q.Duplicate(), q.QoS(), q.Retain()))
+		}
+	}
 	return nil
 }
 
